@@ -158,6 +158,27 @@ func (Engine) Generate(r *simcore.RNG, tier string, idx int) *simcore.Plan {
 			st.A[0], st.A[1], st.A[2], st.A[3], st.A[4], st.A[6], st.A[7] = 0, 0, 0, 0, 0, 1, 3
 			p.Steps = append(p.Steps, st)
 		}
+		if sfHeavy && b >= 1 && b <= 3 {
+			// superfluid-heavy prelude: three accounts join pool 1, lock its shares for an hour (longer than the
+			// unbonding time) and delegate those locks to the first validator: several synthetic locks behind one
+			// synthetic denomination, on locks whose duration differs from the synthetic one
+			kind := []string{"", "gamm-join", "lock", "sf-delegate"}[b]
+			for a := int64(0); a < 3; a++ {
+				st := txStep(kind)
+				st.A[0], st.A[1], st.A[2], st.A[3] = a, 0, 0, 0
+				switch kind {
+				case "gamm-join":
+					st.A[4] = 0
+				case "lock":
+					st.A[5], st.A[6] = 1, 500+a
+					st.A = append(st.A, 1)
+				case "sf-delegate":
+					st.A[6], st.A[7] = 0, 1
+					st.A = append(st.A, 1)
+				}
+				p.Steps = append(p.Steps, st)
+			}
+		}
 		ntx := r.Weighted([]int{15, 30, 25, 18, 12})
 		for t := 0; t < ntx; t++ {
 			wts := lateWeights
@@ -191,6 +212,9 @@ func (Engine) Generate(r *simcore.RNG, tier string, idx int) *simcore.Plan {
 			}
 			if sfHeavy && kind == "lock" && r.Chance(0.7) {
 				st.A = append(st.A, 1)
+			}
+			if sfHeavy && kind == "sf-delegate" {
+				st.A = append(st.A, 1) // prefer existing (longer) locks and the first validator: several locks behind one synthetic denomination
 			}
 			p.Steps = append(p.Steps, st)
 		}
@@ -682,6 +706,13 @@ func (w *world) block(st simcore.Step, dt time.Duration, inBurst bool) {
 	for i, t := range ra.Txs {
 		oc := outcome(t)
 		run.Event(kept[i].st.Op, oc)
+		if os.Getenv("VERIF_C19_ERRCLASS") != "" && oc == "err" && kept[i].st.Op == os.Getenv("VERIF_C19_ERRCLASS") {
+			l := t.Log
+			if len(l) > 90 {
+				l = l[:90]
+			}
+			run.Count("info/errclass/" + l)
+		}
 		if oc == "oog" {
 			run.Fault("out-of-gas")
 			if len(t.Events) > 0 {
